@@ -93,7 +93,7 @@ RepOp(u, c)  == [op |-> "replace", b |-> Blk(u, c), bad |-> IF IsBadU(u) THEN "b
 SetOp(u)     == [op |-> "set", b |-> Blk(u, NoComment), bad |-> IF IsBadU(u) THEN "bad" ELSE "none", cok |-> TRUE]
 RemOp(t)     == [op |-> "remove", t |-> t]
 Plain(name)  == [op |-> name]
-ReaderKinds  == {"get_type", "get_index", "item", "has", "getter", "blocks", "len", "nbytes", "repr", "eq"}
+ReaderKinds  == {"get_type", "get_index", "item", "has", "getter", "blocks", "len", "nbytes", "repr", "eq", "copy"}
 ReadOp(w, t) == [op |-> "read", what |-> w, t |-> t]
 ReadOps      == {ReadOp(w, t) : w \in Readers, t \in WT}
 
